@@ -66,7 +66,7 @@ SameFolds(a, b) == /\ Len(a) = Len(b)
                                           /\ a[f].teR = b[f].teR /\ a[f].teP = b[f].teP
 NcsOk(ncs, pn) ==
   /\ Len(ncs) = NVar(rc)
-  /\ \A v \in 1..NVar(rc) : LET x == ncs[v]  n == pn[v] IN
+  /\ StoresNc(rc) => \A v \in 1..NVar(rc) : LET x == ncs[v]  n == pn[v] IN
        /\ x.kind = n.kind /\ x.rows = n.rows /\ x.conds = n.conds
        /\ n.kind = "loo" => x.by = n.by
        /\ n.kind \in {"cv", "loofolds"} => SameFolds(x.folds, n.folds)
